@@ -67,6 +67,10 @@ def cases(tier, seed):
     # the number of values converted at once and on the memory layout -- so there are no "declared cast" bits to return
     for k in range(150 if tier == 'quick' else 3000):
         yield {'stratum': 'float-cast-out-of-range', 'index': k, 'kind': 'float-cast'}
+    # ... and every (source float type, target integer type) pair with a value at the very edge of the target's range
+    # (max + 1, the largest float below it, min, the float just below min, ...), exactly representable in the source type
+    for k in range(len(gen.float_cast_boundaries()) * (1 if tier == 'quick' else 4)):
+        yield {'stratum': 'float-cast-at-range-boundary', 'index': k, 'kind': 'float-cast-boundary'}
 
 
 def run_case(case):
@@ -219,9 +223,13 @@ def run_case(case):
             if sp['write'].get('perm_seed') is not None:
                 bump('c03-struct-permuted')
             bump('c03-struct-' + (sp['write'].get('struct_variant') or 'packed'))
-        elif case['kind'] == 'float-cast':
+        elif case['kind'] in ('float-cast', 'float-cast-boundary'):
             import numpy as np
-            sp, xi, src, dst, nbad = gen.float_cast_spec(r)
+            if case['kind'] == 'float-cast-boundary':
+                sp, xi, src, dst, nbad = gen.float_cast_boundary_spec(case['index'])
+                bump('c03-float-cast-at-range-boundary')
+            else:
+                sp, xi, src, dst, nbad = gen.float_cast_spec(r)
             ops = sp['ops']
             source = sp['write']['source']
             n = ops[xi]['data']['shape'][0]
